@@ -244,7 +244,11 @@ func runC14(s *spec.Spec, logPath string) {
 func (c *c14) flood(f *spec.DayFlood) {
 	setCall(fmt.Sprintf("flood of %d by-day queries from %s", f.Count, f.From))
 	defer setCall("")
-	c.resolved = append(c.resolved, fmt.Sprintf("flood(%s,%d,%d)", f.From, f.Count, f.Stride))
+	c.resolved = append(c.resolved, fmt.Sprintf("flood%s(%s,%d,%d)", f.View, f.From, f.Count, f.Stride))
+	if f.View == "year" || f.View == "ym" {
+		c.floodView(f)
+		return
+	}
 	t := dayTime(f.From)
 	for i := 0; i < f.Count; i++ {
 		ds := t.Format("2006-01-02")
@@ -272,6 +276,53 @@ func (c *c14) flood(f *spec.DayFlood) {
 	if f.Count > 16384 {
 		probesC["flood_over_16384_distinct_days"]++
 	}
+}
+
+// floodView: Count by-year or by-month queries cycling over the years of the table (and one beyond on either side),
+// each compared with the model's records of that period in date order.
+func (c *c14) floodView(f *spec.DayFlood) {
+	lo, hi := c.years()
+	lo, hi = lo-1, hi+1
+	byYear := map[int][]string{}
+	byYm := map[string][]string{}
+	for _, d := range c.m.days() {
+		r := c.m.recs[d]
+		y := dayTime(d).Year()
+		byYear[y] = append(byYear[y], c.m.render(r))
+		byYm[d[:7]] = append(byYm[d[:7]], c.m.render(r))
+	}
+	y := dayTime(f.From).Year()
+	if y < lo || y > hi {
+		y = lo
+	}
+	mo := 1
+	for i := 0; i < f.Count; i++ {
+		c.checks++
+		if f.View == "year" {
+			got := renderL(HolidayUtil.GetHolidaysByYear(y))
+			if !eq(got, byYear[y]) {
+				c.fail("VIEW_MISMATCH", "by_year/"+c.orderKey(), map[string]string{"year": fmt.Sprint(y), "expected": strings.Join(byYear[y], ", "), "got": strings.Join(got, ", "), "during": fmt.Sprintf("flood query %d of %d", i+1, f.Count)})
+			}
+			y++
+		} else {
+			k := fmt.Sprintf("%04d-%02d", y, mo)
+			got := renderL(HolidayUtil.GetHolidaysByYm(y, mo))
+			if !eq(got, byYm[k]) {
+				c.fail("VIEW_MISMATCH", "by_ym/"+c.orderKey(), map[string]string{"month": k, "expected": strings.Join(byYm[k], ", "), "got": strings.Join(got, ", "), "during": fmt.Sprintf("flood query %d of %d", i+1, f.Count)})
+			}
+			mo++
+			if mo > 12 {
+				mo = 1
+				y++
+			}
+		}
+		if y > hi {
+			y = lo
+		}
+	}
+	probesC["flood_steps"]++
+	probesC["flood_queries"] += uint64(f.Count)
+	probesC["flood_by_"+f.View]++
 }
 
 // build initialises the model black-box from the by-day view and checks it
